@@ -38,8 +38,9 @@ static PANICS: AtomicUsize = AtomicUsize::new(0);
 enum Net {
     Up,
     Down(u32),
-    /// the connector returns an io whose other end is already closed
-    Dead,
+    /// the connector returns an io on which the HTTP/2 handshake fails: reads and writes fail with
+    /// the io error the reason stands for (reason % 32 == 31: the other end is simply closed)
+    Dead(u32),
     /// the connector returns an io whose other end writes an HTTP/1.1 error and closes
     Garbage,
 }
@@ -48,7 +49,7 @@ impl Net {
         match self {
             Net::Up => "Up".into(),
             Net::Down(r) => format!("(Down {})", r),
-            Net::Dead => "UpDead".into(),
+            Net::Dead(r) => format!("(UpDead {})", r),
             Net::Garbage => "UpGarbage".into(),
         }
     }
@@ -56,7 +57,7 @@ impl Net {
         match self {
             Net::Up => json!("up"),
             Net::Down(r) => json!({"down": r}),
-            Net::Dead => json!("dead"),
+            Net::Dead(r) => json!({"dead": r}),
             Net::Garbage => json!("garbage"),
         }
     }
@@ -64,14 +65,16 @@ impl Net {
         if let Some(r) = v.get("down") {
             return Net::Down(r.as_u64().unwrap() as u32);
         }
+        if let Some(r) = v.get("dead") {
+            return Net::Dead(r.as_u64().unwrap() as u32);
+        }
         match v.as_str().unwrap_or("up") {
-            "dead" => Net::Dead,
             "garbage" => Net::Garbage,
             _ => Net::Up,
         }
     }
     fn plain(&self) -> bool {
-        matches!(self, Net::Up | Net::Down(_))
+        matches!(self, Net::Up | Net::Down(_) | Net::Dead(_))
     }
 }
 #[derive(Clone, Copy, Debug, PartialEq, Eq)]
@@ -91,7 +94,7 @@ impl Step {
         match self {
             Step::Set(Net::Up) => "Env ConnectSucceeds".into(),
             Step::Set(Net::Down(r)) => format!("Env (ConnectFails {})", r),
-            Step::Set(Net::Dead) => "Env ConnectSucceedsDead".into(),
+            Step::Set(Net::Dead(r)) => format!("Env (ConnectSucceedsDead {})", r),
             Step::Set(Net::Garbage) => "Env ConnectSucceedsGarbage".into(),
             Step::Drop => "Env ConnectionDropped".into(),
             Step::DropRacy => "EnvRacyDrop true".into(),
@@ -188,6 +191,107 @@ impl Connected for Pipe {
     fn connect_info(&self) {}
 }
 
+// ------------------------------------------------------------------ shapes of the underlying error
+// The reason of a failure also fixes WHAT fails underneath (Model: cause_of_reason):
+// reason % 32 = 0..19 an io::Error of that kind, 20 a custom error type, 21 a boxed String,
+// 22.. io::ErrorKind::Other; (reason / 32) % 3 = number of wrapper errors around it.
+type BoxError = Box<dyn std::error::Error + Send + Sync>;
+const KINDS: [std::io::ErrorKind; 20] = {
+    use std::io::ErrorKind::*;
+    [
+        NotFound, PermissionDenied, ConnectionRefused, ConnectionReset, ConnectionAborted, NotConnected,
+        AddrInUse, AddrNotAvailable, BrokenPipe, AlreadyExists, WouldBlock, InvalidInput, InvalidData,
+        TimedOut, WriteZero, Interrupted, Unsupported, UnexpectedEof, OutOfMemory, Other,
+    ]
+};
+#[derive(Debug)]
+struct CustomErr(String);
+impl std::fmt::Display for CustomErr {
+    fn fmt(&self, f: &mut std::fmt::Formatter<'_>) -> std::fmt::Result {
+        write!(f, "custom: {}", self.0)
+    }
+}
+impl std::error::Error for CustomErr {}
+#[derive(Debug)]
+struct Wrapper(BoxError);
+impl std::fmt::Display for Wrapper {
+    fn fmt(&self, f: &mut std::fmt::Formatter<'_>) -> std::fmt::Result {
+        write!(f, "wrapped: {}", self.0)
+    }
+}
+impl std::error::Error for Wrapper {
+    fn source(&self) -> Option<&(dyn std::error::Error + 'static)> {
+        Some(&*self.0)
+    }
+}
+fn shape_name(r: u32) -> String {
+    let k = match r % 32 {
+        k @ 0..=19 => format!("io::{:?}", KINDS[k as usize]),
+        20 => "custom".to_string(),
+        21 => "string".to_string(),
+        31 => "io::Other|closed".to_string(),
+        _ => "io::Other".to_string(),
+    };
+    format!("{} depth{}", k, (r / 32) % 3)
+}
+/// the connector's own error for a refusal
+fn shaped_error(r: u32, text: String) -> BoxError {
+    let mut e: BoxError = match r % 32 {
+        k @ 0..=19 => Box::new(std::io::Error::new(KINDS[k as usize], text)),
+        20 => Box::new(CustomErr(text)),
+        21 => text.into(),
+        _ => Box::new(std::io::Error::new(std::io::ErrorKind::Other, text)),
+    };
+    for _ in 0..(r / 32) % 3 {
+        e = Box::new(Wrapper(e));
+    }
+    e
+}
+/// the io error a scripted io fails with (what hyper's handshake then reports)
+fn shaped_io_error(r: u32) -> std::io::Error {
+    let text = format!("scripted io failure r{}", r);
+    let mut e = match r % 32 {
+        k @ 0..=19 => std::io::Error::new(KINDS[k as usize], text),
+        20 => std::io::Error::new(std::io::ErrorKind::Other, CustomErr(text)),
+        21 => std::io::Error::other(text),
+        _ => std::io::Error::new(std::io::ErrorKind::Other, text),
+    };
+    for _ in 0..(r / 32) % 3 {
+        e = std::io::Error::new(e.kind(), Wrapper(Box::new(e)));
+    }
+    e
+}
+/// client-side io: a duplex pipe, or one on which every read and write fails
+struct ScriptedIo {
+    inner: DuplexStream,
+    fail: Option<u32>,
+}
+impl AsyncRead for ScriptedIo {
+    fn poll_read(mut self: Pin<&mut Self>, cx: &mut Context<'_>, buf: &mut ReadBuf<'_>) -> Poll<std::io::Result<()>> {
+        match self.fail {
+            Some(r) => Poll::Ready(Err(shaped_io_error(r))),
+            None => Pin::new(&mut self.inner).poll_read(cx, buf),
+        }
+    }
+}
+impl AsyncWrite for ScriptedIo {
+    fn poll_write(mut self: Pin<&mut Self>, cx: &mut Context<'_>, b: &[u8]) -> Poll<std::io::Result<usize>> {
+        match self.fail {
+            Some(r) => Poll::Ready(Err(shaped_io_error(r))),
+            None => Pin::new(&mut self.inner).poll_write(cx, b),
+        }
+    }
+    fn poll_flush(mut self: Pin<&mut Self>, cx: &mut Context<'_>) -> Poll<std::io::Result<()>> {
+        match self.fail {
+            Some(r) => Poll::Ready(Err(shaped_io_error(r))),
+            None => Pin::new(&mut self.inner).poll_flush(cx),
+        }
+    }
+    fn poll_shutdown(mut self: Pin<&mut Self>, cx: &mut Context<'_>) -> Poll<std::io::Result<()>> {
+        Pin::new(&mut self.inner).poll_shutdown(cx)
+    }
+}
+
 // ------------------------------------------------------------------ world + scripted connector
 /// how the connector enforces the tower Service protocol (`call` only after a Ready poll_ready)
 #[derive(Clone, Copy, Debug, PartialEq, Eq)]
@@ -237,8 +341,8 @@ struct World(Arc<Mutex<WorldSt>>);
 #[derive(Clone)]
 struct ScriptedConnector(World);
 impl tower_service::Service<Uri> for ScriptedConnector {
-    type Response = TokioIo<DuplexStream>;
-    type Error = std::io::Error;
+    type Response = TokioIo<ScriptedIo>;
+    type Error = BoxError;
     type Future = Pin<Box<dyn Future<Output = Result<Self::Response, Self::Error>> + Send>>;
     fn poll_ready(&mut self, cx: &mut Context<'_>) -> Poll<Result<(), Self::Error>> {
         let mut s = self.0 .0.lock().unwrap();
@@ -271,14 +375,11 @@ impl tower_service::Service<Uri> for ScriptedConnector {
                 tokio::task::yield_now().await; // one Pending poll each
             }
             match net {
-                Net::Down(r) => Err(std::io::Error::new(
-                    std::io::ErrorKind::ConnectionRefused,
-                    format!("scripted refuse #{} r{}", k, r),
-                )),
-                Net::Dead => {
+                Net::Down(r) => Err(shaped_error(r, format!("scripted refuse #{} r{}", k, r))),
+                Net::Dead(r) => {
                     let (c, s) = tokio::io::duplex(1 << 16);
                     drop(s);
-                    Ok(TokioIo::new(c))
+                    Ok(TokioIo::new(ScriptedIo { inner: c, fail: if r % 32 == 31 { None } else { Some(r) } }))
                 }
                 Net::Garbage => {
                     let (c, mut s) = tokio::io::duplex(1 << 16);
@@ -287,7 +388,7 @@ impl tower_service::Service<Uri> for ScriptedConnector {
                         let _ = s.write_all(b"HTTP/1.1 400 Bad Request\r\nconnection: close\r\n\r\n").await;
                         drop(s);
                     });
-                    Ok(TokioIo::new(c))
+                    Ok(TokioIo::new(ScriptedIo { inner: c, fail: None }))
                 }
                 Net::Up => {
                     let (c, s) = tokio::io::duplex(1 << 16);
@@ -295,7 +396,7 @@ impl tower_service::Service<Uri> for ScriptedConnector {
                     let mut g = w.0.lock().unwrap();
                     g.current = Some(st.clone());
                     let _ = g.tx.send(Ok(Pipe { st }));
-                    Ok(TokioIo::new(c))
+                    Ok(TokioIo::new(ScriptedIo { inner: c, fail: None }))
                 }
             }
         })
@@ -369,7 +470,7 @@ async fn one_call(mut client: HealthClient<tonic::transport::Channel>) -> Outcom
 
 async fn build_channel<C>(ep: Endpoint, conn: C, lazy: bool) -> Result<tonic::transport::Channel, tonic::transport::Error>
 where
-    C: tower_service::Service<Uri, Response = TokioIo<DuplexStream>, Error = std::io::Error> + Send + 'static,
+    C: tower_service::Service<Uri, Response = TokioIo<ScriptedIo>, Error = BoxError> + Send + 'static,
     C::Future: Send,
 {
     if lazy {
@@ -535,7 +636,7 @@ fn oracle(lazy: bool, net0: Net, hist: &[Step], o: &Obs) -> Option<String> {
                 }
                 return None;
             }
-            (Some(Outcome::Err(c, ..)), Net::Dead) => {
+            (Some(Outcome::Err(c, ..)), Net::Dead(_)) => {
                 if *c != 14 {
                     return Some(format!("handshake-fault(dead): eager connect error maps to code {} not UNAVAILABLE", c));
                 }
@@ -606,7 +707,10 @@ fn oracle(lazy: bool, net0: Net, hist: &[Step], o: &Obs) -> Option<String> {
                                 }
                                 (Net::Down(r0), Outcome::Err(c, k, r, m)) => {
                                     if *c != 14 {
-                                        return Some(format!("call {} failed with code {} ({:?}), not UNAVAILABLE", i, c, m));
+                                        return Some(format!(
+                                            "call {} failed with code {} ({:?}), not UNAVAILABLE, while the connector refuses (underlying error: {})",
+                                            i, c, m, shape_name(r0)
+                                        ));
                                     }
                                     if *r != r0 {
                                         return Some(format!("call {} got the error of an older refusal (reason {})", i, r));
@@ -625,7 +729,7 @@ fn oracle(lazy: bool, net0: Net, hist: &[Step], o: &Obs) -> Option<String> {
                                     }
                                     last_reported = *k;
                                 }
-                                (Net::Dead, Outcome::Err(c, _, _, m)) => {
+                                (Net::Dead(_), Outcome::Err(c, _, _, m)) => {
                                     if *c != 14 {
                                         return Some(format!(
                                             "handshake-fault(dead): call {} failed with code {} ({:?}), not UNAVAILABLE, while no connection can be made",
@@ -721,6 +825,13 @@ fn push_case_with(out: &mut Out, kind: &str, lazy: bool, lat: u32, prl: u32, mod
     out.hist("latency", lat);
     out.hist("connector_poll_ready_pendings", prl);
     out.hist("connector_mode", mode.name());
+    for s in hist.iter().chain(std::iter::once(&Step::Set(net0))) {
+        match s {
+            Step::Set(Net::Down(r)) => out.hist("refusal_error", shape_name(*r)),
+            Step::Set(Net::Dead(r)) => out.hist("handshake_io_error", shape_name(*r)),
+            _ => {}
+        }
+    }
     out.hist("attempts", o.attempts.min(12));
     out.hist(
         "outcomes",
@@ -776,10 +887,14 @@ fn all_seqs(alpha: &[Step], len: usize) -> Vec<Vec<Step>> {
     r
 }
 /// distinct refusal reasons so that a stale error is recognisable
+/// (the reason also selects the underlying error: kind = reason % 32, wrapping depth = reason / 32 % 3,
+/// so stepping by 13 walks through kinds and depths)
 fn distinct_reasons(s: &mut [Step], base: u32) {
     for (j, e) in s.iter_mut().enumerate() {
-        if let Step::Set(Net::Down(_)) = e {
-            *e = Step::Set(Net::Down(base + j as u32));
+        match e {
+            Step::Set(Net::Down(_)) => *e = Step::Set(Net::Down(base + 13 * j as u32)),
+            Step::Set(Net::Dead(_)) => *e = Step::Set(Net::Dead(base + 7 + 13 * j as u32)),
+            _ => {}
         }
     }
 }
@@ -815,7 +930,7 @@ fn main() {
     use Step::*;
     let fail = |r: u32| Set(Net::Down(r));
     let succeed = Set(Net::Up);
-    let dead = Set(Net::Dead);
+    let dead = Set(Net::Dead(8));
     let garbage = Set(Net::Garbage);
 
     // corpus: hand-picked histories
@@ -865,16 +980,30 @@ fn main() {
     }
     // transport connects, HTTP/2 does not (audit M4)
     let hs: Vec<(bool, u32, Net, Vec<Step>)> = vec![
-        (true, 0, Net::Dead, vec![CALL, CALL, succeed, CALL]),
+        (true, 0, Net::Dead(31), vec![CALL, CALL, succeed, CALL]),
         (true, 0, Net::Garbage, vec![CALL, CALL, succeed, CALL]),
-        (false, 0, Net::Dead, vec![CALL]),
+        (false, 0, Net::Dead(31), vec![CALL]),
+        (false, 0, Net::Dead(0), vec![CALL]),
         (false, 0, Net::Garbage, vec![CALL, succeed, CALL]),
         (false, 1, Net::Up, vec![CALL, dead, Drop, CALL, CALL, garbage, CALL, succeed, CALL]),
         (true, 2, Net::Garbage, vec![Calls(3), CALL]),
-        (true, 1, Net::Dead, vec![Calls(2)]),
+        (true, 1, Net::Dead(45), vec![Calls(2)]),
     ];
     for (lazy, lat, n0, h) in &hs {
         push_case(&mut out, "corpus.handshake", *lazy, *lat, *n0, h);
+    }
+
+    // every shape of the underlying error (20 io::ErrorKinds, custom type, boxed String, io Other;
+    // wrapped 0, 1, 2 levels deep) x {the connector refuses, the handshake on its io fails} x
+    // lazy/eager: while no connection can be made every call is UNAVAILABLE whatever lies beneath
+    for shape in 0..96u32 {
+        for lazy in [true, false] {
+            push_case(&mut out, "script.error_kinds", lazy, shape % 2, Net::Down(shape), &[CALL, Calls(2), Set(Net::Dead(95 - shape)), CALL, succeed, CALL]);
+            push_case(&mut out, "script.error_kinds", lazy, shape % 3, Net::Dead(shape), &[CALL, fail(shape + 96), CALL, succeed, CALL]);
+            if !lazy {
+                push_case(&mut out, "script.error_kinds", false, 0, Net::Up, &[CALL, Drop, Set(Net::Dead(shape)), CALL, Drop, fail(shape), CALL, succeed, CALL]);
+            }
+        }
     }
 
     // exhaustive: every script over {fail, succeed, drop} up to the bound, a call after every event
@@ -926,7 +1055,7 @@ fn main() {
         let mut h = vec![];
         for j in 0..len {
             h.push(match r.below(8) {
-                0 => fail(20 + j as u32),
+                0 => fail(96 * j as u32 + r.below(96) as u32),
                 1 => succeed,
                 2 => Drop,
                 3 | 4 => Calls(r.range(0, 4) as u32),
@@ -934,7 +1063,7 @@ fn main() {
             });
         }
         let lazy = r.chance(1, 2);
-        let n0 = if r.chance(1, 3) { Net::Down(r.range(1, 5) as u32) } else { Net::Up };
+        let n0 = if r.chance(1, 3) { Net::Down(960 + r.below(96) as u32) } else { Net::Up };
         let lat = r.below(4) as u32;
         push_case(&mut out, "history.random", lazy, lat, n0, &h);
     }
@@ -944,12 +1073,12 @@ fn main() {
     let maxh = if a.thorough { 4 } else { 3 };
     for len in 0..=maxh {
         for (idx, mut s) in all_seqs(&alpha5, len).into_iter().enumerate() {
-            if len > 0 && s.iter().all(|e| matches!(e, Set(n) if n.plain()) || *e == Drop) {
+            if len > 0 && s.iter().all(|e| matches!(e, Set(Net::Up) | Set(Net::Down(_)) | Drop)) {
                 continue; // already in script.exhaustive
             }
             distinct_reasons(&mut s, 40);
             for lazy in [true, false] {
-                for n0 in [Net::Up, Net::Dead, Net::Garbage] {
+                for n0 in [Net::Up, Net::Dead((idx as u32 * 5) % 96), Net::Garbage] {
                     if len == 0 && n0 == Net::Up {
                         continue;
                     }
@@ -965,22 +1094,23 @@ fn main() {
         let mut h = vec![];
         for j in 0..len {
             h.push(match r.below(10) {
-                0 => fail(50 + j as u32),
+                0 => fail(96 * j as u32 + r.below(96) as u32),
                 1 => succeed,
                 2 => Drop,
-                3 => dead,
+                3 => Set(Net::Dead(96 * j as u32 + r.below(96) as u32)),
                 4 => garbage,
                 5 => Calls(r.range(0, 3) as u32),
                 _ => CALL,
             });
         }
-        let n0 = *r.pick(&[Net::Up, Net::Down(3), Net::Dead, Net::Garbage]);
+        let (ra, rb) = (960 + r.below(96) as u32, 960 + r.below(96) as u32);
+        let n0 = *r.pick(&[Net::Up, Net::Down(ra), Net::Dead(rb), Net::Garbage]);
         push_case(&mut out, "history.random_handshake", r.chance(1, 2), r.below(3) as u32, n0, &h);
     }
 
     out.finish(
         IMPORTS,
-        "script.exhaustive: ALL scripts over {connect fails, connect succeeds, connection dropped} up to length 6 (thorough 8) x lazy/eager, a unary call at the quiescent point after every event (and optionally before the first), initial reachability and connector latency (0..2 Pending polls) varied; concurrent.k: ALL such scripts up to length 4 (thorough 6) with 2..4 calls issued TOGETHER (queued in the tower Buffer) after every event; history.random: random histories with calls and batches of 0..4 at arbitrary positions; script.handshake / history.random_handshake: the alphabet widened by {transport connects but the peer closes at once (handshake fails; strictly UNAVAILABLE, fixed finding F-C14a), transport connects but the peer is not HTTP/2 (established connection dies under the request, CANCELLED or UNAVAILABLE accepted as for racy drops)}; corpus.racy: calls issued before the client noticed the drop (outside the property's quantifier, behaviour recorded and modelled). The scripted connector enforces the tower Service protocol (its poll_ready answers Pending 0..2 times per cycle; a call without a Ready poll_ready is recorded / panics / runs under a real tower::limit::ConcurrencyLimit, rotating per case; corpus.protocol = drop-and-reconnect sequences in every mode). Real Endpoint::connect_with_connector[_lazy] + Buffer worker + Reconnect + hyper h2 client against a real tonic Server over tokio duplex pipes, paused clock. Non-trivial = at least one call and two steps. Distinct = distinct (kind, model expression).",
+        "script.exhaustive: ALL scripts over {connect fails, connect succeeds, connection dropped} up to length 6 (thorough 8) x lazy/eager, a unary call at the quiescent point after every event (and optionally before the first), initial reachability and connector latency (0..2 Pending polls) varied; concurrent.k: ALL such scripts up to length 4 (thorough 6) with 2..4 calls issued TOGETHER (queued in the tower Buffer) after every event; history.random: random histories with calls and batches of 0..4 at arbitrary positions; script.error_kinds: every shape of the error beneath the ConnectError (the reason selects it: 20 std::io::ErrorKinds, a custom error type, a boxed String, wrapped 0..2 levels deep) for refusals of the connector and for failures of the HTTP/2 handshake on a scripted io, lazy and eager - strictly UNAVAILABLE; all other kinds draw their reasons from the same space; script.handshake / history.random_handshake: the alphabet widened by {transport connects but the peer closes at once (handshake fails; strictly UNAVAILABLE, fixed finding F-C14a), transport connects but the peer is not HTTP/2 (established connection dies under the request, CANCELLED or UNAVAILABLE accepted as for racy drops)}; corpus.racy: calls issued before the client noticed the drop (outside the property's quantifier, behaviour recorded and modelled). The scripted connector enforces the tower Service protocol (its poll_ready answers Pending 0..2 times per cycle; a call without a Ready poll_ready is recorded / panics / runs under a real tower::limit::ConcurrencyLimit, rotating per case; corpus.protocol = drop-and-reconnect sequences in every mode). Real Endpoint::connect_with_connector[_lazy] + Buffer worker + Reconnect + hyper h2 client against a real tonic Server over tokio duplex pipes, paused clock. Non-trivial = at least one call and two steps. Distinct = distinct (kind, model expression).",
         json!({}),
     );
 }
